@@ -1089,6 +1089,8 @@ package iavl
 //@   let wv = tree.ImmutableTree.version + 1
 //@   callsite MutableTree).VersionExists [working-version-looked-up] arg0 == tree && arg1 == wv
 //@   ensures [existing-version-always-looked-up] calls("MutableTree).VersionExists") == 1
+//@   ensures [empty-working-tree-is-not-an-existing-non-empty-version] result("MutableTree).VersionExists@1") && calls("nodeDB).GetNode@1") == 1 && result("nodeDB).GetNode@1", 1) == nil && result("nodeDB).GetNode@1", 0) != nil && old(tree.ImmutableTree.root) == nil && calls("MutableTree).WorkingHash") == 1 && ord(result("nodeDB).GetNode@1", 0).hash) != ord(result("MutableTree).WorkingHash@1")) ==> err != nil
+//@   ensures [non-empty-working-tree-is-not-an-existing-empty-version] result("MutableTree).VersionExists@1") && calls("nodeDB).GetRoot@1") == 1 && result("nodeDB).GetRoot@1", 1) == nil && result("nodeDB).GetRoot@1", 0) == nil && old(tree.ImmutableTree.root) != nil ==> err != nil
 //@   callsite MutableTree).saveFastNodeVersion [index-labelled] arg1 == wv && !tree.skipFastStorageUpgrade
 //@   callsite nodeDB).SaveEmptyRoot [empty-marker] arg1 == wv && tree.ImmutableTree.root == nil
 //@   callsite nodeDB).SaveRoot [reference-root] arg1 == wv && tree.ImmutableTree.root != nil && tree.ImmutableTree.root.nodeKey != nil && arg2 == tree.ImmutableTree.root.nodeKey
